@@ -6,6 +6,16 @@ CLAIMED = {
     text="All obligations of Span.__contains__/__and__/__post_init__ and the generated Loc ordering are discharged by z3 for every span/location (unbounded ints, arbitrary file strings); the intersection clause is a universally quantified membership equivalence. Right level: the functions are small, pure and fully inside the modelled subset.",
     note="pyvc symbolic executor + z3; dataclass(order=True) semantics assumed lexicographic; spans are objects of the concrete shape Span(Loc,Loc).",
     technique="deductive: VCs generated from the real AST of span.py (path-wise symbolic execution), discharged by z3"),
+ "C33": dict(
+    category="proof", design_ref="DESIGN.md §6 C33",
+    text="Contracts on both context-manager classes (constructor sets the global and saves the old value; __exit__ restores it for every argument triple and never swallows), a with-statement obligation with an arbitrary (havocking, possibly raising) body that subsumes every nesting, the four gates (raise GuppyError iff the global is false, no state change), and dominance obligations at all 8 call sites that handle a gated feature. All discharged by z3 / structural check of the real AST.",
+    note="module global modelled as one symbolic bool; Python's with-protocol as implemented by pyvc; diagnostics modelled as records; call-site obligations are syntactic dominance (gate call precedes feature code on every path of the function body).",
+    technique="deductive: VCs from the real AST of experimental.py + dominance obligations on the AST of the 8 call-site functions; z3"),
+ "C17": dict(
+    category="proof", design_ref="DESIGN.md §6 C17",
+    text="For every mathematical integer v: _int_bounds_check raises iff v is outside the signed/unsigned 64-bit range; python_value_to_guppy_type returns nat iff hinted nat and 0<=v<2^64, int iff v in int64, raises otherwise, for scalars and for every element of tuple/list constants (lengths 2,3 symbolic elements); USub folding maps Constant(v) to Constant(-v); python_value_to_hugr passes exactly v at log-width 6 to IntVal / the ConstInt payload. 49 obligations, z3.",
+    note="hugr.std.int.IntVal and hugr.val.Extension are external constructors modelled as records (assumed); frozenarray_type modelled as a record; container obligations are for lengths 2 and 3 (the loop over `rest` is unrolled), not for arbitrary length.",
+    technique="deductive: path-wise symbolic execution of the real functions (incl. the real NumericType/diagnostic classes) over a z3 Int; z3"),
 }
 
 NOT_APPLICABLE = {
